@@ -751,7 +751,7 @@ pub fn c14_contended(ctx: &Ctx, rng: &mut Rng, seed: u64, quick: bool) -> Histor
         1 => ("an index written for other data (other documents)", state(true, MetaSpec::OtherHash, IndexSpec::Foreign)),
         _ => ("a complete index under a stale data hash", state(true, MetaSpec::OtherHash, IndexSpec::Complete)),
     };
-    let hold_ms = *rng.pick(&[600u64, 1200, 2500]);
+    let hold_ms = *rng.pick(&[2000u64, 3000, 5000]);
     let mut steps = vec![Step::Fabricate { state: st }];
     steps.push(Step::Contended { hold_ms, session: ctx.session(cpus, vec![], vec![Op::Open { slot: 0, mode: Mode::Disk, plan: random_plan(rng) }, ask(0)]) });
     steps.push(Step::Start { session: ctx.session(cpus, vec![], vec![Op::Open { slot: 0, mode: Mode::Disk, plan: random_plan(rng) }, ask(0)]) });
